@@ -11,8 +11,8 @@ PID = "C10"
 RULE = ("Real processes. Every cell of tool {assembler.py, file_util.py with a cassette source, file_util.py with a disk "
         "source} x switch {--to_bin, --to_cas, --to_dsk} x {--append, no append} x pre-existing target {absent, empty, "
         "cassette image of 1-3 files, disk image, raw binary, arbitrary bytes (random / truncated tape header / "
-        "disk-sized garbage / all zeros / all $FF / one byte repeated / zeros then one byte: 9 shapes, each in every cell), "
-        "cassette >= 161,280 bytes; one disk variant stores a complete cassette image as a file} is enumerated (126 cells, 2 content variants each, 9 for arbitrary bytes); "
+        "disk-sized garbage / all zeros / all $FF / one byte repeated / zeros then one byte / disk-sized garbage with a blank first directory slot: 12 shapes, each in every cell), "
+        "cassette >= 161,280 bytes; one disk variant stores a complete cassette image as a file} is enumerated (126 cells, 2 content variants each, 12 for arbitrary bytes); "
         "Hypothesis draws further contents for the cells and 2-4 invocation sequences on one path. Decision model: "
         "modification is permitted iff append and kind(existing) == kind being written, kind() decided by the "
         "independent readers (valid Disk BASIC image -> disk; tape grammar with >= 1 file -> cassette; zero-length -> "
@@ -30,8 +30,8 @@ EXHAUSTIVE = {"quick": ["all 126 cells of tool x switch x append x pre-existing 
 
 TOOLS = ["asm", "fu_cas", "fu_dsk"]
 SWITCHES = ["--to_bin", "--to_cas", "--to_dsk"]
-PRES = ["absent", "empty", "cas", "dsk", "rawbin", "arbitrary", "bigcas"]
-N_ARBITRARY = 9
+PRES = ["absent", "empty", "cas", "dsk", "rawbin", "arbitrary", "bigcas", "blankdsk"]
+N_ARBITRARY = 12
 PROGRAM = [" NAM PROG\n", " ORG $0E00\n", "START LDA #$41\n", " JSR $A30A\n", " BRA START\n", " FCB 1,2,3\n", " END START\n"]
 
 
@@ -43,7 +43,7 @@ def enumerated(tier, seed):
                     for variant in (range(N_ARBITRARY) if pre == "arbitrary" else (0, 1, 2) if pre == "dsk" else (0, 1)):
                         if pre in ("absent", "empty") and variant:
                             continue
-                        if pre == "bigcas" and variant:
+                        if pre in ("bigcas", "blankdsk") and variant:
                             continue
                         k = 63 + variant if pre == "arbitrary" else variant * 977 + 5      # every arbitrary-content shape
                         if pre == "dsk" and variant:
@@ -57,6 +57,14 @@ def enumerated(tier, seed):
                 for pre in ("cas", "dsk", "rawbin"):
                     for spell in ("dot", "sub", "abs", "tilde"):
                         yield dict(steps=[dict(tool=tool, switch=switch, append=append)], pre=pre, k=5, spell=spell)
+    # file_util with a --files selection onto existing images of the same kind: the files already there stay
+    for tool in ("fu_cas", "fu_dsk"):
+        for switch in ("--to_cas", "--to_dsk"):
+            for append in (False, True):
+                for pre in ("absent", "cas", "dsk"):
+                    yield dict(steps=[dict(tool=tool, switch=switch, append=append, files=True)], pre=pre, k=5)
+                    yield dict(steps=[dict(tool="asm", switch=switch, append=True), dict(tool=tool, switch=switch, append=append, files=True),
+                                      dict(tool=tool, switch=switch, append=True, files=True)], pre=pre, k=982)
     # program names that cannot be stored as bytes: the save fails, the existing image must survive
     for name in ("N\u20ac", "\u00c01", "\u540d\u524d"):
         for switch in ("--to_cas", "--to_dsk"):
@@ -64,8 +72,9 @@ def enumerated(tier, seed):
                 yield dict(steps=[dict(tool="asm", switch=switch, append=True, name=name)], pre=pre, k=11)
 
 
-_step = st.fixed_dictionaries(dict(tool=st.sampled_from(TOOLS), switch=st.sampled_from(SWITCHES), append=st.booleans()))
-_cell = st.fixed_dictionaries(dict(steps=st.lists(_step, min_size=1, max_size=1), pre=st.sampled_from(PRES[:-1]), k=st.integers(0, 10 ** 6)))
+_step = st.fixed_dictionaries(dict(tool=st.sampled_from(TOOLS), switch=st.sampled_from(SWITCHES), append=st.booleans(),
+                                   files=st.sampled_from([False, False, True])))
+_cell = st.fixed_dictionaries(dict(steps=st.lists(_step, min_size=1, max_size=1), pre=st.sampled_from(PRES[:-2] + PRES[-1:]), k=st.integers(0, 10 ** 6)))
 _seq = st.fixed_dictionaries(dict(steps=st.lists(_step, min_size=2, max_size=4), pre=st.sampled_from(["absent", "absent", "cas", "dsk", "rawbin"]),
                                   k=st.integers(0, 10 ** 6)))
 
@@ -138,6 +147,8 @@ def make_pre(pre, k):
             inner = make_cas(_small_files(rnd, 1, "cas"))
             files[0] = dict(files[0], name="TAPE", ftype=1, dtype=0xFF, load=0, exec=0, data=inner)
         return make_dsk(files, rnd, avoid_granule_zero=True), "dsk", files
+    if pre == "blankdsk":       # a freshly formatted disk image: a disk holding no files
+        return b"\xff" * dskref.IMAGE_SIZE, "dsk", []
     if pre == "rawbin":
         n = rnd.choice([1, 7, 300, 5000])
         return bytes([0x86, 0x41]) + bytes(rnd.randrange(256) for _ in range(n)), "other", []
@@ -149,6 +160,12 @@ def make_pre(pre, k):
             return b"\xff" * rnd.choice([1, 256, 5000]), "other", []
         if which == 7:
             return bytes([rnd.choice([0x01, 0x3C, 0x80, 0xAA, 0xFE])]) * rnd.choice([2, 300]) + b"\x00" * rnd.choice([0, 1, 300]), "other", []
+        if which in (9, 10, 11):
+            # disk-sized (or larger) garbage whose first directory slot reads "never used" / "deleted": not a disk
+            raw = bytearray(rnd.randrange(1, 255) for _ in range(161280 if which != 11 else 200000))
+            raw[0] = 0x12
+            raw[dskref.DIR_OFFSET] = 0xFF if which != 10 else 0x00
+            return bytes(raw), "other", []
         if which == 8:        # zeros, then something
             return b"\x00" * rnd.choice([1, 128, 4000]) + bytes([rnd.randrange(1, 256)]), "other", []
         if which == 0:
@@ -210,6 +227,11 @@ def execute(case):
             fh.write(make_cas([src_file]))
         with open(os.path.join(tmp, "source.dsk"), "wb") as fh:
             fh.write(make_dsk([src_file], rnd))
+        extra_file = dict(name="EXTRA", ext="BIN", ftype=2, dtype=0, load=0x3000, exec=0x3000, data=bytes(range(7, 90)))
+        with open(os.path.join(tmp, "source2.cas"), "wb") as fh:      # two files: used with --files srcfile
+            fh.write(make_cas([extra_file, src_file]))
+        with open(os.path.join(tmp, "source2.dsk"), "wb") as fh:
+            fh.write(make_dsk([extra_file, src_file], rnd))
         spell = case.get("spell")
         os.makedirs(os.path.join(tmp, "sub"), exist_ok=True)
         spelled = {None: "target.out", "dot": "./target.out", "sub": "sub/../target.out", "abs": target, "tilde": "~/target.out"}[spell]
@@ -228,6 +250,10 @@ def execute(case):
                 new_data, new_name = prog.image, odd_name or "PROG"
             else:
                 argv = ["source.cas" if step["tool"] == "fu_cas" else "source.dsk", step["switch"], spelled]
+                if step.get("files") and step["switch"] != "--to_bin":
+                    # a selection from a source of two files: what is already on the target is no business of --files
+                    argv = [argv[0].replace("source.", "source2."), step["switch"], spelled, "--files", "srcfile"]
+                    labels.append("with_files_selection")
                 script = "file_util.py"
                 new_data, new_name = src_file["data"], "SRCFILE"
             if step["append"]:
@@ -266,6 +292,10 @@ def execute(case):
                 continue
             if verdict == "permitted":
                 labels.append("permitted")
+                if not changed and not odd_name and spell != "tilde" and "refus" not in (res.stdout + res.stderr).lower() and res.status == 0 \
+                        and not (res.stdout + res.stderr).strip():
+                    return viol("{}: append applies, the tool reports nothing and the target is unchanged".format(where),
+                                fid="C10:silent-no-op", labels=sorted(set(labels)))
             if not changed:
                 if spell == "tilde":
                     continue        # whether ~ is expanded is the tool's choice; if not, the path names nothing
